@@ -11,8 +11,10 @@
 -/
 import Wbxml.Lemmas.ParserSafeMain
 import Wbxml.Lemmas.ParserSafeExt
+import Wbxml.Lemmas.ParserBridge
+import Wbxml.Lemmas.ParserSafeTree
 namespace Wbxml.Props.C13
-open Wbxml Wbxml.Model Wbxml.Lemmas.ParserSafe
+open Wbxml Wbxml.Model Wbxml.Lemmas.ParserSafe Wbxml.Lemmas.ParserBridge
 
 /-! ## Part A — the parser model is total and stays inside the input -/
 
@@ -227,6 +229,44 @@ theorem forced_skips_pid_check (cfg : PCfg) (hf : cfg.langForced ≠ 0) (s s' : 
   have h2 : (cfg.langForced != 0) = true := by simpa using hf
   simp only [checkPublicId, h1, h2, Bool.false_and, Bool.false_eq_true, if_false, if_true, and_self]
 
+/-! ### The same checks, stated for field *values* (through the C11 codec: `Codec.mbEncode` is the
+library's own writer `wbxml_buffer_append_mb_uint_32`, and `Lemmas/ParserBridge.lean` shows the parser
+reads it back) -/
+
+/-- A string-table length field holding any 32-bit value larger than the number of bytes that
+    follow it is refused with error 54. -/
+theorem strtbl_length_value_checked (s : PState) (len : Nat) (r : Bytes) (hv : len < 2 ^ 32)
+    (hs : s.rest = Codec.mbEncode len ++ r) (hlen : len > r.length) :
+    parseStrtbl s = .error (.code 54) := by
+  refine strtbl_length_checked_local s len r ?_ hlen
+  rw [hs, mbLoop_eq_mbDecode, Wbxml.Props.C11.mb_roundtrip len r hv]
+
+/-- An opaque length field holding any 32-bit value larger than the number of bytes that follow it
+    is refused with error 43. -/
+theorem opaque_length_value_checked (s : PState) (len : Nat) (r : Bytes) (hv : len < 2 ^ 32)
+    (hs : s.rest = 0xC3 :: (Codec.mbEncode len ++ r)) (hlen : len > r.length) :
+    parseOpaque s = .error (.code 43) := by
+  refine opaque_length_checked s _ len r hs ?_ hlen
+  rw [mbLoop_eq_mbDecode, Wbxml.Props.C11.mb_roundtrip len r hv]
+
+/-- A string-table reference (`STR_T index`) holding any 32-bit index at or beyond the table is
+    refused with error 48, and with error 52 (index ≠ 0) when the document has no table. -/
+theorem strT_index_value_checked (s : PState) (idx : Nat) (r : Bytes) (hv : idx < 2 ^ 32)
+    (hs : s.rest = 0x83 :: (Codec.mbEncode idx ++ r)) :
+    (∀ tbl, s.strtbl = some tbl → idx ≥ tbl.length → parseString s = .error (.code 48)) ∧
+    (s.strtbl = none → idx ≠ 0 → parseString s = .error (.code 52)) := by
+  have h3 : isToken s 0x03 = false := by simp [isToken, hs]
+  have h83 : isToken s 0x83 = true := by simp [isToken, hs]
+  have hmb : parseMb { s with rest := Codec.mbEncode idx ++ r } = .ok (idx, { s with rest := r }) :=
+    parseMb_mbEncode _ idx r hv rfl
+  have key : parseString s = (strtblRef { s with rest := r } idx >>= fun v => pure (v, { s with rest := r })) := by
+    simp only [parseString, h3, h83, Bool.false_eq_true, if_false, if_true, skip1, hs, bind, Except.bind, hmb]
+  constructor
+  · intro tbl ht hi
+    rw [key, strtbl_index_checked { s with rest := r } tbl idx ht hi]; rfl
+  · intro ht hi
+    rw [key, strtbl_index_no_table { s with rest := r } idx ht hi]; rfl
+
 /-! ## Part C — truncation
 
 `rootEnd cfg bs = some e` (defined in `Lemmas/ParserSafeExt.lean`): the header, the leading
@@ -274,6 +314,18 @@ theorem header_truncation_rejected (cfg : PCfg) (bs : Bytes) (s : PState) (l : L
   · exact ⟨⟨c, h1⟩, h2⟩
   · exact absurd hh (header_take_not_ok h hk _)
   · exact absurd hh (header_take_not_ok h hk _)
+
+/-- The same at the level of the conversion (`wbxml_conv_wbxml2xml_run`): a document cut before the
+    end of its root element yields a non-zero error code and no XML, under every option tuple. -/
+theorem conversion_prefix_rejected (cfg : W2XCfg) (bs : Bytes) (e k : Nat)
+    (h : rootEnd { main := cfg.main, langForced := cfg.lang, metaCharset := cfg.charset } bs = some e)
+    (hk : k < e) : ∃ c, c ≠ 0 ∧ wbxml2xml cfg (bs.take k) = .error (.code c) := by
+  rcases wbxml2xml_anatomy cfg (bs.take k) with ⟨_, h'⟩ | ⟨c, hc0, _, h'⟩ | ⟨t, ht, _⟩
+  · exact ⟨12, by decide, h'⟩
+  · exact ⟨c, hc0, h'⟩
+  · obtain ⟨⟨c, hc⟩, _⟩ := prefix_rejected _ bs e k h hk
+    rw [treeOfWbxml_of_parse_error cfg.main _ cfg.lang cfg.charset _ _ hc] at ht
+    cases ht
 
 /-- Documented tolerance: bytes after the document are ignored. Appending `y` to an accepted input
     changes neither verdict, events nor `consumed` — unless the run had consumed the whole input and
@@ -353,7 +405,27 @@ example : (parseStrtbl { rest := [1, 0x61, 5] }).toBool = true ∧
 /-- Forcing a language: the same bytes with an unknown public id (0x7F) are accepted. -/
 example : (parse { demoCfg with langForced := 1101 } [3, 0x7F, 0x6A, 0, 5]).result.toBool = true ∧
     (parse demoCfg [3, 0x7F, 0x6A, 0, 5]).result.toBool = false := by decide +kernel
-/-- Trailing bytes: garbage after the root element is ignored. -/
+/-- Trailing bytes: garbage after the root element is ignored (`trailing_ignored` applies: the run
+    consumed everything, and the appended bytes do not start with the PI token). -/
 example : (parse demoCfg (demoDoc ++ [0xFF, 0xFF])).consumed = 9 := by decide +kernel
+example : (parse demoCfg (demoDoc ++ [0xFF, 0xFF])).events = (parse demoCfg demoDoc).events := by
+  have h : (parse demoCfg demoDoc).result = .ok () := by
+    rcases parse_total demoCfg demoDoc with h | ⟨c, _, h⟩
+    · exact h
+    · have : (parse demoCfg demoDoc).result.toBool = true := by decide +kernel
+      rw [h] at this; cases this
+  exact (trailing_ignored demoCfg demoDoc [0xFF, 0xFF] h (fun _ => by decide)).2.1
+/-- Header truncation: the header of `demoDoc2` is its first 6 bytes. -/
+example : ∀ k, k < 6 → (parse demoCfg (demoDoc2.take k)).events = [] := by
+  intro k hk
+  have hh : (match parseHeader demoCfg demoDoc2 with
+      | .ok (s, _) => s.rest.length == 10 | .error _ => false) = true := by decide +kernel
+  cases hp : parseHeader demoCfg demoDoc2 with
+  | error e => rw [hp] at hh; cases hh
+  | ok p =>
+    obtain ⟨s, l⟩ := p
+    rw [hp] at hh
+    have hl : s.rest.length = 10 := by simpa using hh
+    exact (header_truncation_rejected demoCfg demoDoc2 s l k hp (by rw [hl]; simpa [demoDoc2] using hk)).2
 
 end Wbxml.Props.C13
